@@ -166,7 +166,7 @@ class UbxParser(object):
                     logger.debug(f'no match - dropping {cid}, {self.msg_len} bytes')
         else:
             logger.warning('checksum error in frame, discarding')
-            logger.warning(f'{self.msg_class:02x} {self.msg_id:02x} {binascii.hexlify(self.msg_data)}')
+            logger.warning(f'{self.msg_class:02x} {self.msg_id:02x} {binascii.hexlify(self.msg_data)!r}')
 
             crc_error_message = (self.crc_error_cid, None)
             self.rx_queue.append(crc_error_message)
